@@ -2,6 +2,7 @@ package main
 
 import (
 	"fmt"
+	"sort"
 	"strconv"
 	"strings"
 
@@ -13,14 +14,55 @@ import (
 // ---- the type fragment of coq/Model/Obj.v (Inductive ty) ----
 
 // Ty is a type of the modelled fragment: Integer[lo,hi], String, Boolean, Optional[T], Array[T], Any, Undef,
-// Variant[Undef, T] (varu), a reference to an Object type by name (obj), or some other type (other: only
-// its text is kept).
+// Variant[Undef, T] (varu), Struct[{...}] (struct), a reference to an Object type by name (obj), or some other
+// type (other: only its text is kept).
 type Ty struct {
 	K  string `json:"k"`
 	Lo *int64 `json:"lo,omitempty"` // nil = unbounded
 	Hi *int64 `json:"hi,omitempty"`
 	E  *Ty    `json:"e,omitempty"`
 	N  string `json:"n,omitempty"`
+	M  []SM   `json:"m,omitempty"` // struct members in declaration order
+}
+
+// SM is one member of a Struct type as it is WRITTEN: the key is 'n', Optional['n'] or NotUndef['n'].
+type SM struct {
+	N    string `json:"n"`
+	Opt  bool   `json:"opt,omitempty"`
+	NotU bool   `json:"notu,omitempty"`
+	T    Ty     `json:"t"`
+}
+
+// required: the member must be present in a value. The rule of the Struct type (Puppet type system, what
+// NewStructElement implements): Optional['n'] may be left out, NotUndef['n'] may not, a plain key may be
+// left out exactly when the value type accepts undef.
+func (m SM) required() bool {
+	if m.Opt {
+		return false
+	}
+	return m.NotU || !m.T.acceptsUndef()
+}
+
+func tStruct(ms ...SM) Ty { return Ty{K: "struct", M: ms} }
+func sm(n string, t Ty) SM { return SM{N: n, T: t} }
+func smOpt(n string, t Ty) SM { return SM{N: n, Opt: true, T: t} }
+func smNotU(n string, t Ty) SM { return SM{N: n, NotU: true, T: t} }
+
+// sortedMembers: the members by name (the order in which generated values list their keys: Hash equality is
+// keyed, the model compares entry by entry; on key-sorted hashes the two coincide)
+func (t Ty) sortedMembers() []SM {
+	ms := append([]SM{}, t.M...)
+	sort.Slice(ms, func(i, j int) bool { return ms[i].N < ms[j].N })
+	return ms
+}
+
+func (t Ty) member(n string) (SM, bool) {
+	for _, m := range t.M {
+		if m.N == n {
+			return m, true
+		}
+	}
+	return SM{}, false
 }
 
 func tInt() Ty                { return Ty{K: "int"} }
@@ -69,6 +111,21 @@ func (t Ty) Text() string {
 		return "Undef"
 	case "varu":
 		return "Variant[Undef, " + t.E.Text() + "]"
+	case "struct":
+		if len(t.M) == 0 {
+			return "Struct"
+		}
+		ps := make([]string, len(t.M))
+		for i, m := range t.M {
+			k := quote(m.N)
+			if m.Opt {
+				k = "Optional[" + k + "]"
+			} else if m.NotU {
+				k = "NotUndef[" + k + "]"
+			}
+			ps[i] = k + " => " + m.T.Text()
+		}
+		return "Struct[{" + strings.Join(ps, ", ") + "}]"
 	case "obj", "other":
 		return t.N
 	}
@@ -103,12 +160,77 @@ func (t Ty) Gallina() string {
 		return "TUndef"
 	case "varu":
 		return "(TVarUndef " + t.E.Gallina() + ")"
+	case "struct":
+		out := "TStructNil"
+		for i := len(t.M) - 1; i >= 0; i-- {
+			m := t.M[i]
+			out = "(TStructCons " + gS(m.N) + " " + lib.GBool(m.required()) + " " + m.T.Gallina() + " " + out + ")"
+		}
+		return out
 	case "obj":
 		return "(TObj " + gS(t.N) + ")"
 	case "other":
 		return "(TOther " + gS(t.N) + ")"
 	}
 	panic("bad ty " + t.K)
+}
+
+// splitTop splits s at the separator where no bracket, brace or quote is open.
+func splitTop(s, sep string) []string {
+	out := []string{}
+	depth, start := 0, 0
+	inq := false
+	for i := 0; i < len(s); i++ {
+		c := s[i]
+		switch {
+		case c == '\'':
+			inq = !inq
+		case inq:
+		case c == '[' || c == '{':
+			depth++
+		case c == ']' || c == '}':
+			depth--
+		case depth == 0 && strings.HasPrefix(s[i:], sep):
+			out = append(out, s[start:i])
+			start = i + len(sep)
+			i += len(sep) - 1
+		}
+	}
+	return append(out, s[start:])
+}
+
+// parseStruct reads the members `key => type, ...` of a printed Struct type.
+func parseStruct(in string) (Ty, bool) {
+	in = strings.TrimSpace(in)
+	if !strings.HasPrefix(in, "{") || !strings.HasSuffix(in, "}") {
+		return Ty{}, false
+	}
+	t := Ty{K: "struct"}
+	seen := map[string]bool{}
+	for _, part := range splitTop(in[1:len(in)-1], ",") {
+		kv := splitTop(part, "=>")
+		if len(kv) != 2 {
+			return Ty{}, false
+		}
+		k := strings.TrimSpace(kv[0])
+		m := SM{}
+		if strings.HasPrefix(k, "Optional[") && strings.HasSuffix(k, "]") {
+			m.Opt, k = true, k[len("Optional["):len(k)-1]
+		} else if strings.HasPrefix(k, "NotUndef[") && strings.HasSuffix(k, "]") {
+			m.NotU, k = true, k[len("NotUndef["):len(k)-1]
+		}
+		if len(k) < 2 || k[0] != '\'' || k[len(k)-1] != '\'' || strings.ContainsAny(k[1:len(k)-1], "'\\") {
+			return Ty{}, false
+		}
+		m.N = k[1 : len(k)-1]
+		m.T = parseTy(kv[1])
+		if m.T.K == "other" || m.T.K == "obj" || seen[m.N] {
+			return Ty{}, false
+		}
+		seen[m.N] = true
+		t.M = append(t.M, m)
+	}
+	return t, true
 }
 
 // parseTy reads the canonical text of a type of the fragment (as printed by the implementation).
@@ -136,12 +258,20 @@ func parseTy(s string) Ty {
 		return tOpt(tAny())
 	case "Array": // Array[Any] is the default Array
 		return tArr(tAny())
+	case "Struct":
+		return tStruct()
+	}
+	if in, ok := inner("Struct"); ok {
+		if t, ok := parseStruct(in); ok {
+			return t
+		}
+		return Ty{K: "other", N: s}
 	}
 	if in, ok := inner("Variant"); ok {
 		// only the form Variant[Undef, T] (two members, Undef first) is in the fragment
 		if strings.HasPrefix(in, "Undef,") {
 			e := parseTy(in[len("Undef,"):])
-			if e.K != "other" {
+			if e.K != "other" && e.K != "obj" {
 				return tVarU(e)
 			}
 		}
@@ -457,6 +587,26 @@ func instOf(t Ty, v RV) bool {
 		return v.K == "undef"
 	case "varu":
 		return v.K == "undef" || instOf(*t.E, v)
+	case "struct":
+		// a Hash with string keys: every member that is present is an instance of its type, every required member
+		// is present, there is no other key
+		if v.K != "hash" {
+			return false
+		}
+		seen := map[string]bool{}
+		for _, e := range v.H {
+			m, ok := t.member(e.K)
+			if !ok || seen[e.K] || !instOf(m.T, e.V) {
+				return false
+			}
+			seen[e.K] = true
+		}
+		for _, m := range t.M {
+			if m.required() && !seen[m.N] {
+				return false
+			}
+		}
+		return true
 	}
 	return false
 }
@@ -489,6 +639,30 @@ func assignable(a, b Ty) bool {
 		return b.K == "arr" && assignable(*a.E, *b.E)
 	case "undef":
 		return b.K == "undef"
+	case "struct":
+		// every value of b is a value of a: b has no member that a does not know, a member of both may be left out
+		// in b only if it may in a and its type in a accepts its type in b, a member only a has may be left out
+		if b.K != "struct" {
+			return false
+		}
+		for _, mb := range b.M {
+			if _, ok := a.member(mb.N); !ok {
+				return false
+			}
+		}
+		for _, ma := range a.M {
+			mb, ok := b.member(ma.N)
+			if !ok {
+				if ma.required() {
+					return false
+				}
+				continue
+			}
+			if ma.required() && !mb.required() || !assignable(ma.T, mb.T) {
+				return false
+			}
+		}
+		return true
 	}
 	return false
 }
